@@ -157,6 +157,23 @@ BaseRows(stmt, store) ==
   IN IF IsAggStmt(stmt) THEN AggRows(stmt, ps, env)
      ELSE [i \in 1..Len(ps) |-> ProjectRow(stmt.fields, ps[i], env)]
 
+\* An aggregate SELECT shows a GROUP BY field as the group's value; the engine renders it as text
+\* (int(value) as n appears as '5').  "Shows that group's value" is read as content: a text column is
+\* accepted for an integer / Boolean group value when it is that value's canonical text.
+GroupCol(stmt, j) == IsAggStmt(stmt) /\ j <= Len(stmt.fields) /\ ~HasAggr(stmt.fields[j].e)
+TrueText == <<116, 114, 117, 101>>
+FalseText == <<102, 97, 108, 115, 101>>
+AsContractKind(want, got) ==
+  IF got.t # "s" THEN got
+  ELSE IF want.t = "i" /\ IsIntText(got.s) /\ IntText(IntOfText(got.s)) = got.s THEN VInt(IntOfText(got.s))
+  ELSE IF want.t = "b" /\ got.s \in {TrueText, FalseText} THEN VBool(got.s = TrueText)
+  ELSE got
+\* engine rows with group columns brought to the kind the contract's rows have in that column
+FixRows(stmt, base, rows) ==
+  IF ~IsAggStmt(stmt) \/ base = <<>> THEN rows
+  ELSE [i \in 1..Len(rows) |-> [j \in 1..Len(rows[i]) |->
+          IF GroupCol(stmt, j) /\ j <= Len(base[1]) THEN AsContractKind(base[1][j], rows[i][j]) ELSE rows[i][j]]]
+
 \* ... B variants take the base rows already computed (TLC does not memoise operator applications)
 ModelledB(stmt, store, base) ==
   /\ Evaluable(store, stmt.where, EnvOf(stmt))
@@ -174,7 +191,8 @@ ErrExpectedB(stmt, store, base) ==
   /\ \E i \in 1..Len(base) : \E j \in 1..Len(base[i]) : base[i][j].t = "err"
 
 \* is `rows` an allowed answer to stmt, whose rows before ORDER BY / LIMIT are `base` ?
-SelectOKB(stmt, base, rows) ==
+SelectOKB(stmt, base, rows0) ==
+  LET rows == FixRows(stmt, base, rows0) IN
   IF stmt.order = <<>> THEN
        rows = (IF stmt.lim.has THEN Take(base, stmt.lim.s, stmt.lim.n) ELSE base)
   ELSE IF ~Comparable(base, stmt.order) THEN TRUE            \* no documented order: nothing to conclude
